@@ -890,6 +890,43 @@ func LimitsCheck(args []string) {
 				c.conn.Close()
 			}
 		}})
+	// a client that keeps hammering after it was refused must not earn tokens faster than the configured rate
+	cases = append(cases, limitsCase{Name: "ws-connects hammering", Flags: append(off("--ws-connects-per-min", "60"), "--ws-connects-burst", "4"),
+		Run: func(s *server, v func(string, map[string]any)) {
+			codes := mustCreate(s, 1)
+			t0 := time.Now()
+			okc, tries := 0, 0
+			var keep []*wsClient
+			for time.Since(t0) < 1500*time.Millisecond {
+				c, _, err := dialWS(wsURL(s, codes[0], fmt.Sprintf("h%d", tries), "receiver"))
+				tries++
+				if err == nil {
+					okc++
+					keep = append(keep, c)
+				}
+			}
+			el := time.Since(t0).Seconds()
+			if float64(okc) > 4+el*1+1 {
+				v("more_connects_accepted_than_the_rate_allows", map[string]any{"admitted": okc, "attempts": tries, "burst": 4, "per_second": 1, "seconds": el})
+			}
+			for _, c := range keep {
+				c.conn.Close()
+			}
+		}})
+	cases = append(cases, limitsCase{Name: "session-creates hammering", Flags: append(off("--session-creates-per-min", "60"), "--session-creates-burst", "3"),
+		Run: func(s *server, v func(string, map[string]any)) {
+			t0 := time.Now()
+			ok, tries := 0, 0
+			for time.Since(t0) < 1500*time.Millisecond {
+				n, _, _ := createN(s, 1, false)
+				ok += n
+				tries++
+			}
+			el := time.Since(t0).Seconds()
+			if float64(ok) > 3+el*1+1 {
+				v("more_creates_accepted_than_the_rate_allows", map[string]any{"created": ok, "attempts": tries, "burst": 3, "per_second": 1, "seconds": el})
+			}
+		}})
 	done := map[string]int{}
 	for i, c := range cases {
 		if i%*shards != *shard {
